@@ -1,0 +1,138 @@
+//go:build verif
+
+package goatlang
+
+import (
+	"io/fs"
+)
+
+// Verification hooks, compiled only with the build tag "verif".
+// None of them changes behaviour unless explicitly switched on.
+
+var verifOptimizeOff bool
+var verifBudget int64 = -1
+var verifTicks int64
+
+// VerifBudgetMsg is the panic value raised when the instruction budget is exhausted.
+const VerifBudgetMsg = "verif: instruction budget exhausted"
+
+// VerifSetOptimize switches the peephole optimizer on (default) or off for all later compiles.
+func VerifSetOptimize(on bool) { verifOptimizeOff = !on }
+
+func verifNoOptimize() bool { return verifOptimizeOff }
+
+// VerifSetBudget sets the number of instructions that may still be dispatched; n < 0 disables the budget.
+func VerifSetBudget(n int64) { verifBudget = n; verifTicks = 0 }
+
+// VerifTicks returns the number of instructions dispatched since the last VerifSetBudget.
+func VerifTicks() int64 { return verifTicks }
+
+func (v *VM) verifTick() {
+	verifTicks++
+	if verifBudget < 0 {
+		return
+	}
+	if verifBudget == 0 {
+		panic(VerifBudgetMsg)
+	}
+	verifBudget--
+}
+
+// VerifInstr is an exported copy of one compiled instruction.
+type VerifInstr struct {
+	Op      string
+	Code    int
+	A, B, C int
+	File    string
+	Func    string
+	Line    int
+	Column  int
+	Text    string
+}
+
+func verifExport(g *lookup, codes []instruction) []VerifInstr {
+	res := make([]VerifInstr, len(codes))
+	for n, i := range codes {
+		file, fnc, line, col := i.Pos.info(g)
+		res[n] = VerifInstr{Op: i.Code.String(), Code: int(i.Code), A: int(i.A), B: int(i.B), C: int(i.C),
+			File: file, Func: fnc, Line: line, Column: col, Text: i.String(g)}
+	}
+	return res
+}
+
+// VerifSplitParams exposes the packing of two small operands into one register.
+func VerifSplitParams(v int) (int, int) { a, b := splitParams(reg(v)); return int(a), int(b) }
+
+// VerifCompileEval does what Eval does up to and including compilation of the input
+// (imports are loaded, compiled and run exactly as Eval does), but does not run the input.
+func VerifCompileEval(v *VM, sys fs.FS, fname, input string, evalImports map[string]string) (out []VerifInstr, slots int, err error) {
+	tokens, err := tokenize(fname, input)
+	if err != nil {
+		return nil, 0, err
+	}
+	tree, err := parse(tokens)
+	if err != nil {
+		return nil, 0, err
+	}
+	pkgs, err := loadImports(sys, "", tree)
+	if err != nil {
+		return nil, 0, err
+	}
+	codes, slots, err := compilePkgs(v.globals, pkgs[:len(pkgs)-1], true)
+	if err != nil {
+		return nil, 0, err
+	}
+	if _, err = v.run(codes, slots); err != nil {
+		return nil, 0, err
+	}
+	if evalImports == nil {
+		evalImports = map[string]string{}
+	}
+	cmp := &compiler{Globals: v.globals, Locals: newLookup(), Imports: evalImports, Optimize: true, PackageName: "main", ExportName: "main"}
+	codes, slots, err = cmp.run(pkgs[len(pkgs)-1])
+	if err != nil {
+		return nil, 0, err
+	}
+	return verifExport(v.globals, codes), slots, nil
+}
+
+// VerifCompileLoad does what Load does up to and including compilation, without running anything.
+func VerifCompileLoad(v *VM, sys fs.FS, arg string) (out []VerifInstr, slots int, err error) {
+	f := loadPackage
+	if len(arg) > 3 && arg[len(arg)-3:] == ".go" {
+		f = loadFile
+	}
+	pkgs, err := f(sys, arg)
+	if err != nil {
+		return nil, 0, err
+	}
+	codes, slots, err := compilePkgs(v.globals, pkgs, true)
+	if err != nil {
+		return nil, 0, err
+	}
+	return verifExport(v.globals, codes), slots, nil
+}
+
+// VerifIntMap wraps the unexported robin-hood hash table for model-based checking.
+type VerifIntMap struct{ m intMap }
+
+// VerifIntMapSlot describes one occupied slot of the table.
+type VerifIntMapSlot struct{ Slot, Distance, Key int }
+
+func VerifNewIntMap(alloc int) *VerifIntMap        { return &VerifIntMap{m: newIntMap(alloc)} }
+func (w *VerifIntMap) Set(key int, value Value)    { w.m.Set(key, value) }
+func (w *VerifIntMap) Assign(key int, value Value) { w.m.Assign(key, value) }
+func (w *VerifIntMap) Get(key int) (Value, bool)   { return w.m.Get(key) }
+func (w *VerifIntMap) Delete(key int)              { w.m.Delete(key) }
+func (w *VerifIntMap) Len() int                    { return w.m.Len() }
+func (w *VerifIntMap) Size() int                   { return w.m.size }
+func (w *VerifIntMap) Copy() *VerifIntMap          { return &VerifIntMap{m: w.m.Copy()} }
+func (w *VerifIntMap) Dump() (res []VerifIntMapSlot) {
+	for n, p := range w.m.pairs {
+		if p.distance == 0 {
+			continue
+		}
+		res = append(res, VerifIntMapSlot{Slot: n, Distance: p.distance, Key: p.key})
+	}
+	return res
+}
